@@ -12,11 +12,14 @@ EXTENDS APUSamp, TLC, Json, IOUtils, Sequences
 Scens == ndJsonDeserialize(IOEnv.TRACE)
 VARIABLES sc, l, power, last, slips, since
 \* last: clock of the last sample (-1 unknown); since: clock from which samples are due again (power-on), -1 none
+\* slips: clock of the most recent slip (-1 none): the divider re-phases once per 2^22-clock epoch, so the next slip
+\* cannot come before a whole epoch (less the two sample periods a slip may span) has passed
+SlipAllowed(clk) == slips < 0 \/ clk - slips >= 4194304 - 2 * SamplePeriod
 vars == <<sc, l, power, last, slips, since>>
 Ev == Scens[sc].ev[l]
 Attached == Scens[sc].reset[1] = 1
 Init == /\ sc \in 1..Len(Scens) /\ l = 1
-        /\ power = (Scens[sc].reset[2] = 1) /\ last = 0 - 1 /\ slips = 0 /\ since = 0
+        /\ power = (Scens[sc].reset[2] = 1) /\ last = 0 - 1 /\ slips = 0 - 1 /\ since = 0
 
 CycClocks(cyc) == (4 * cyc - 3)..(4 * cyc)
 
@@ -32,8 +35,8 @@ Sample(e) ==
            /\ last' - since <= SamplePeriod + 94
            /\ UNCHANGED slips
       ELSE \/ NextRegular(last, cyc) /\ last' = last + SamplePeriod /\ UNCHANGED slips
-           \/ /\ slips = 0 /\ slips' = 1
-              /\ \E g \in SlipGaps : (last + g) \in CycClocks(cyc) /\ last' = last + g
+           \/ \E g \in SlipGaps : /\ (last + g) \in CycClocks(cyc) /\ last' = last + g
+                                  /\ SlipAllowed(last + g) /\ slips' = last + g
    /\ UNCHANGED <<power, since>>
 
 WriteEv(e) ==
@@ -46,7 +49,7 @@ WriteEv(e) ==
    ELSE UNCHANGED <<power, last, slips, since>>
 
 \* between two logged events no sample may have been due: checked when the next event (sample, power-off or end) arrives
-NoneMissedUpTo(cyc) == (power /\ Attached /\ last >= 0) => (4 * cyc - last < SamplePeriod + (IF slips = 0 THEN 95 ELSE 0))
+NoneMissedUpTo(cyc) == (power /\ Attached /\ last >= 0) => (4 * cyc - last < SamplePeriod + (IF SlipAllowed(4 * cyc) THEN 95 ELSE 0))
 
 Next == /\ l <= Len(Scens[sc].ev) /\ l' = l + 1 /\ UNCHANGED sc
         /\ LET e == Ev IN
